@@ -11,7 +11,7 @@
           (colour=1 is not modelled: prints "diff <idx> unsupported=colour")
 
    Needs these identifiers in the Extraction command of Extract.v:
-     split_newlines get_opcodes grouped_opcodes pretty_diff_nocolor valid_script groups_of_script report_of_script *)
+     split_newlines get_opcodes grouped_opcodes pretty_diff_nocolor valid_script groups_of_script report_of_script unified_of_script read_report report_read_of *)
 open Model
 open Util
 
@@ -79,22 +79,34 @@ let () =
     if get_or f "colour" "0" <> "0" then begin
       (* colours on: only the pass/fail decision is modelled ("*" = not compared) *)
       let a = unhex (get f "a") and b = unhex (get f "b") in
-      Printf.printf "diff %d empty=%s valid=* report=* own=*\n" idx (if diff_empty a b then "1" else "0")
+      Printf.printf "diff %d empty=%s valid=* readable=* report=* own=*\n" idx (if diff_empty a b then "1" else "0")
     end else begin
       let a = unhex (get f "a") and b = unhex (get f "b") in
       let name = unhex (get f "name") in
       let line = nat_of_int (int_of_string (get f "line")) in
       let own = pretty_diff_nocolor a b name line in
       (* the report printed from the implementation's own script, when it handed one over *)
-      let (valid, report) =
+      (* readable: the bytes the implementation printed (ireport), read by the verified reader [read_report], give exactly the
+         counts, the shown lines and the footer of the structured report of the implementation's script - whatever the two
+         header labels and their padding are (Proofs/ReportReaderP.v: read_report_label_irrelevant) *)
+      let (valid, readable, report) =
         match List.assoc_opt "iall" f with
         | Some ia ->
           (try
              let al = split_newlines a and bl = split_newlines b in
              let script = script_of al bl (parse_groups ia) in
-             (b01 (valid_script al bl script), report_of_script a b script name line)
-           with Failure _ -> ("0", own))
-        | None -> ("*", own) in
-      Printf.printf "diff %d empty=%s valid=%s report=%s own=%s\n" idx
-        (match report with [] -> "1" | _ -> "0") valid (hex report) (hex own)
+             let report = report_of_script a b script name line in
+             let readable =
+               match List.assoc_opt "ireport" f with
+               | Some "*" | None -> "*"
+               | Some ir ->
+                 let bytes_printed = if ir = "-" then [] else unhex ir in
+                 if a = b then b01 (bytes_printed = [])
+                 else if List.mem (n_of_int 10) name then "*"        (* outside the reader's hypothesis name_ok *)
+                 else b01 (read_report bytes_printed = Some (report_read_of (unified_of_script al bl script) name line)) in
+             (b01 (valid_script al bl script), readable, report)
+           with Failure _ -> ("0", "0", own))
+        | None -> ("*", "*", own) in
+      Printf.printf "diff %d empty=%s valid=%s readable=%s report=%s own=%s\n" idx
+        (match report with [] -> "1" | _ -> "0") valid readable (hex report) (hex own)
     end)
